@@ -1,186 +1,25 @@
 (* C15 — proofs about the string / character-array model. *)
 From Coq Require Import ZArith List Bool Lia.
 Import ListNotations.
-From Cffi Require Import C15.Model.
+From Cffi Require Import C15.Model C15.WProofs.
 Open Scope Z_scope.
 
-Definition valid_cp (c : Z) : Prop := 0 <= c <= 0x10FFFF.
-Definition valid_str (s : list Z) : Prop := Forall valid_cp s.
 Definition zero_free (l : list Z) : Prop := Forall (fun c => c <> 0) l.
 
-Lemma zlen_app : forall a b, zlen (a ++ b) = zlen a + zlen b.
-Proof. intros. unfold zlen. rewrite app_length. lia. Qed.
-Lemma zlen_cons : forall a l, zlen (a :: l) = 1 + zlen l.
-Proof. intros. unfold zlen. cbn [length]. lia. Qed.
-Lemma zlen_nonneg : forall l, 0 <= zlen l.
-Proof. intros. unfold zlen. lia. Qed.
-
-(* ---------------------------------------------------------------- bit arithmetic of surrogates *)
-Lemma lor_shiftl_add : forall x y, 0 <= x -> 0 <= y < 1024 ->
-  Z.lor (Z.shiftl x 10) y = x * 1024 + y.
-Proof.
-  intros x y Hx Hy.
-  assert (Z.land (Z.shiftl x 10) y = 0) as Hd.
-  { apply Z.bits_inj'. intros i Hi. rewrite Z.land_spec, Z.bits_0.
-    destruct (Z.ltb_spec i 10).
-    - rewrite Z.shiftl_spec_low by lia. reflexivity.
-    - destruct (Z.eq_dec y 0) as [->|Hne]; [rewrite Z.bits_0; apply andb_false_r|].
-      rewrite (Z.bits_above_log2 y i); [apply andb_false_r|lia|].
-      apply Z.log2_lt_pow2; [lia|]. apply Z.lt_le_trans with (2 ^ 10); [lia|].
-      apply Z.pow_le_mono_r; lia. }
-  rewrite <- Z.lxor_lor by assumption. rewrite <- Z.add_nocarry_lxor by assumption.
-  rewrite Z.shiftl_mul_pow2 by lia. reflexivity.
-Qed.
-
-Definition hi_of (c : Z) : Z := Z.lor 0xD800 (Z.shiftr (c - 0x10000) 10).
-Definition lo_of (c : Z) : Z := Z.lor 0xDC00 (Z.land (c - 0x10000) 0x3FF).
-
-Lemma hi_of_val : forall c, 0xFFFF < c <= 0x10FFFF -> hi_of c = 0xD800 + (c - 0x10000) / 1024.
-Proof.
-  intros c H. unfold hi_of. rewrite Z.shiftr_div_pow2 by lia. change (2 ^ 10) with 1024.
-  change 0xD800 with (Z.shiftl 54 10) at 1. rewrite lor_shiftl_add; [reflexivity|lia|].
-  split; [apply Z.div_pos; lia|apply Z.div_lt_upper_bound; lia].
-Qed.
-
-Lemma lo_of_val : forall c, 0xFFFF < c <= 0x10FFFF -> lo_of c = 0xDC00 + (c - 0x10000) mod 1024.
-Proof.
-  intros c H. unfold lo_of. change 0x3FF with (Z.ones 10). rewrite Z.land_ones by lia.
-  change (2 ^ 10) with 1024. change 0xDC00 with (Z.shiftl 55 10) at 1.
-  rewrite lor_shiftl_add; [reflexivity|lia|]. apply Z.mod_pos_bound. lia.
-Qed.
-
-Lemma surrogates_of_astral : forall c, 0xFFFF < c <= 0x10FFFF ->
-  is_hi (hi_of c) = true /\ is_lo (lo_of c) = true /\ join_pair (hi_of c) (lo_of c) = c /\
-  hi_of c <> 0 /\ lo_of c <> 0.
-Proof.
-  intros c H. rewrite hi_of_val, lo_of_val by assumption.
-  pose proof (Z.mod_pos_bound (c - 0x10000) 1024 ltac:(lia)) as Hm.
-  assert (0 <= (c - 0x10000) / 1024 < 1024) as Hq
-    by (split; [apply Z.div_pos; lia|apply Z.div_lt_upper_bound; lia]).
-  pose proof (Z.div_mod (c - 0x10000) 1024 ltac:(lia)) as Hdm.
-  unfold is_hi, is_lo.
-  split; [apply andb_true_intro; split; apply Z.leb_le; lia|].
-  split; [apply andb_true_intro; split; apply Z.leb_le; lia|].
-  split; [|lia].
-  unfold join_pair. change 0x3FF with (Z.ones 10). rewrite !Z.land_ones by lia. change (2 ^ 10) with 1024.
-  assert ((0xD800 + (c - 0x10000) / 1024) mod 1024 = (c - 0x10000) / 1024) as ->.
-  { symmetry. apply Z.mod_unique with (q := 54); lia. }
-  assert ((0xDC00 + (c - 0x10000) mod 1024) mod 1024 = (c - 0x10000) mod 1024) as ->.
-  { symmetry. apply Z.mod_unique with (q := 55); lia. }
-  rewrite lor_shiftl_add by lia. lia.
-Qed.
-
-(* ---------------------------------------------------------------- encode16: size and units *)
-Lemma as_char16_loop_cons : forall c r,
-  as_char16_loop (c :: r) =
-  if 0xFFFF <? c then
-    if 0x10FFFF <? c then Err ValueError
-    else match as_char16_loop r with
-         | Err e => Err e
-         | Ok us => Ok (hi_of c :: lo_of c :: us)
-         end
-  else match as_char16_loop r with Err e => Err e | Ok us => Ok (c :: us) end.
-Proof. reflexivity. Qed.
-
-(* the size computed by the sizing pass is the number of units the copy loop writes *)
+(* the size computed by the sizing pass is the number of units the copy loop writes
+   (C15/WProofs.v: as_char16_loop_total, as_char16_loop_length, on the regenerated code) *)
 Theorem as_char16_loop_size : forall s, valid_str s ->
   exists us, as_char16_loop s = Ok us /\ zlen us = size16 s.
 Proof.
-  induction s as [|c r IH]; intros Hv.
-  - exists []. split; reflexivity.
-  - inversion Hv as [|? ? Hc Hr]; subst. destruct (IH Hr) as [us [Hus Hl]].
-    rewrite as_char16_loop_cons, Hus. cbn [size16]. unfold valid_cp in Hc.
-    destruct (Z.ltb_spec 0xFFFF c).
-    + destruct (Z.ltb_spec 0x10FFFF c); [lia|]. eexists. split; [reflexivity|].
-      rewrite !zlen_cons. lia.
-    + eexists. split; [reflexivity|]. rewrite zlen_cons. lia.
-Qed.
-
-Lemma count_zero_join : forall w, count_surrogates w = 0 -> join16_loop w = w.
-Proof.
-  intros w. remember (length w) as n eqn:Hn. revert w Hn.
-  induction n as [n IH] using lt_wf_ind. intros w Hn Hc.
-  destruct w as [|a r]; [reflexivity|]. destruct r as [|b r']; [reflexivity|].
-  change (count_surrogates (a :: b :: r')) with
-    ((if is_hi a && is_lo b then 1 else 0) + count_surrogates (b :: r')) in Hc.
-  assert (0 <= count_surrogates (b :: r')) as Hp.
-  { clear. generalize (b :: r'). induction l as [|x l IHl]; [cbn; lia|].
-    destruct l as [|y l']; [cbn; lia|].
-    change (count_surrogates (x :: y :: l')) with
-      ((if is_hi x && is_lo y then 1 else 0) + count_surrogates (y :: l')).
-    destruct (is_hi x && is_lo y); lia. }
-  change (join16_loop (a :: b :: r')) with
-    (if is_hi a && is_lo b then join_pair a b :: join16_loop r' else a :: join16_loop (b :: r')).
-  destruct (is_hi a && is_lo b); [lia|].
-  f_equal. apply (IH (length (b :: r'))); [subst; cbn; lia|reflexivity|lia].
-Qed.
-
-Lemma from_char16_join : forall w, from_char16 w = Ok (join16_loop w).
-Proof.
-  intros w. unfold from_char16. destruct (Z.eqb_spec (count_surrogates w) 0) as [E|E]; [|reflexivity].
-  rewrite count_zero_join by assumption. reflexivity.
-Qed.
-
-(* head of the encoding of a non-empty string *)
-Lemma as_char16_loop_head : forall c r us, valid_cp c -> as_char16_loop (c :: r) = Ok us ->
-  exists u us', us = u :: us' /\ (if 0xFFFF <? c then is_lo u = false else u = c).
-Proof.
-  intros c r us Hc H. rewrite as_char16_loop_cons in H. unfold valid_cp in Hc.
-  destruct (Z.ltb_spec 0xFFFF c).
-  - destruct (Z.ltb_spec 0x10FFFF c); [lia|].
-    destruct (as_char16_loop r) as [us0|]; [|discriminate]. inversion H; subst.
-    do 2 eexists. split; [reflexivity|].
-    rewrite hi_of_val by lia. unfold is_lo.
-    assert (0 <= (c - 0x10000) / 1024 < 1024)
-      by (split; [apply Z.div_pos; lia|apply Z.div_lt_upper_bound; lia]).
-    apply andb_false_intro1. apply Z.leb_gt. lia.
-  - destruct (as_char16_loop r) as [us0|]; [|discriminate]. inversion H; subst.
-    do 2 eexists. split; reflexivity.
+  intros s Hv. destruct (as_char16_loop_total s Hv) as [us Hus]. exists us. split; [exact Hus|].
+  apply as_char16_loop_length; [|exact Hus].
+  eapply Forall_impl; [|exact Hv]. unfold valid_cp. intros; lia.
 Qed.
 
 (* decode16 (encode16 s) = s when s has no high surrogate immediately followed by a low one *)
 Theorem decode16_encode16 : forall s us, valid_str s -> count_surrogates s = 0 ->
   as_char16_loop s = Ok us -> from_char16 us = Ok s.
-Proof.
-  intros s us Hv Hc Hus. rewrite from_char16_join. f_equal. revert us Hv Hc Hus.
-  induction s as [|c r IH]; intros us Hv Hc Hus.
-  - inversion Hus; reflexivity.
-  - inversion Hv as [|? ? Hcp Hr]; subst.
-    assert (count_surrogates r = 0 /\ (forall d r', r = d :: r' -> (is_hi c && is_lo d) = false)) as [Hcr Hadj].
-    { destruct r as [|d r']; [split; [reflexivity|intros; discriminate]|].
-      change (count_surrogates (c :: d :: r')) with
-        ((if is_hi c && is_lo d then 1 else 0) + count_surrogates (d :: r')) in Hc.
-      assert (0 <= count_surrogates (d :: r')) as Hp.
-      { clear. generalize (d :: r'). induction l as [|x l IHl]; [cbn; lia|].
-        destruct l as [|y l']; [cbn; lia|].
-        change (count_surrogates (x :: y :: l')) with
-          ((if is_hi x && is_lo y then 1 else 0) + count_surrogates (y :: l')).
-        destruct (is_hi x && is_lo y); lia. }
-      destruct (is_hi c && is_lo d) eqn:E; [lia|].
-      split; [lia|]. intros d0 r0 Heq. inversion Heq; subst. exact E. }
-    rewrite as_char16_loop_cons in Hus. unfold valid_cp in Hcp.
-    destruct (Z.ltb_spec 0xFFFF c).
-    + destruct (Z.ltb_spec 0x10FFFF c); [lia|].
-      destruct (as_char16_loop r) as [us0|] eqn:E0; [|discriminate]. inversion Hus; subst us.
-      destruct (surrogates_of_astral c ltac:(lia)) as [Hh [Hl [Hj _]]].
-      change (join16_loop (hi_of c :: lo_of c :: us0)) with
-        (if is_hi (hi_of c) && is_lo (lo_of c) then join_pair (hi_of c) (lo_of c) :: join16_loop us0
-         else hi_of c :: join16_loop (lo_of c :: us0)).
-      rewrite Hh, Hl. cbn [andb]. rewrite Hj. f_equal. apply IH; auto.
-    + destruct (as_char16_loop r) as [us0|] eqn:E0; [|discriminate]. inversion Hus; subst us.
-      specialize (IH us0 Hr Hcr eq_refl).
-      destruct r as [|d r'].
-      * inversion E0; subst. reflexivity.
-      * inversion Hr as [|? ? Hd _]; subst.
-        destruct (as_char16_loop_head d r' us0 Hd E0) as [u [us' [-> Hu]]].
-        change (join16_loop (c :: u :: us')) with
-          (if is_hi c && is_lo u then join_pair c u :: join16_loop us' else c :: join16_loop (u :: us')).
-        assert ((is_hi c && is_lo u) = false) as ->.
-        { destruct (0xFFFF <? d).
-          - rewrite Hu. apply andb_false_r.
-          - subst u. apply (Hadj d r' eq_refl). }
-        f_equal. exact IH.
-Qed.
+Proof. intros s us Hv Hc Hus. apply (decode16_encode16_iff s us Hv Hus). exact Hc. Qed.
 
 (* ... and this is false otherwise (inherent to UTF-16) *)
 Theorem decode16_encode16_refuted : exists s us, valid_str s /\
@@ -198,7 +37,7 @@ Proof.
   induction s as [|c r IH]; intros us Hv Hz H.
   - inversion H; constructor.
   - inversion Hv as [|? ? Hc Hr]; subst. inversion Hz as [|? ? Hc0 Hz']; subst.
-    rewrite as_char16_loop_cons in H. unfold valid_cp in Hc.
+    unfold valid_cp in Hc. rewrite as_char16_loop_cons in H by lia.
     destruct (Z.ltb_spec 0xFFFF c).
     + destruct (Z.ltb_spec 0x10FFFF c); [lia|].
       destruct (as_char16_loop r) as [us0|] eqn:E0; [|discriminate]. inversion H; subst.
@@ -248,7 +87,7 @@ Qed.
 
 Lemma from_char32_valid : forall s, valid_str s -> from_char32 s = Ok s.
 Proof.
-  intros s H. unfold from_char32.
+  intros s H. rewrite from_char32_eq.
   assert (existsb (fun u => 0x10FFFF <? u) s = false) as ->; [|reflexivity].
   induction H as [|c r Hc Hr IH]; [reflexivity|]. cbn [existsb]. rewrite IH.
   unfold valid_cp in Hc. destruct (Z.ltb_spec 0x10FFFF c); [lia|reflexivity].
@@ -303,7 +142,7 @@ Proof.
     + destruct (Z.ltb_spec (zlen us) (zlen us + 1)); [reflexivity|lia].
   - inversion Hu; subst. unfold size32.
     destruct ((0 <=? k) && (k <? zlen us)); [reflexivity|].
-    unfold as_char32.
+    unfold as_char32, PyUnicode_AsUCS4. cbn zeta.
     destruct (Z.eqb_spec (zlen us) k); cbn [negb].
     + destruct (Z.ltb_spec (zlen us) (zlen us)); [lia|].
       destruct (Z.ltb_spec (zlen us) (zlen us + 0)); [lia|reflexivity].
